@@ -362,7 +362,7 @@ def run_case(case, ctx):
         d = 2 if cls == "2d" else 3
         Vs = [None, None, PI * R * R, 4 * PI / 3 * R**3][d]
         if cls == "2d":
-            ctx.check("C13.argument-form", "C13.sphere-limit", abs(drop.volume - Vs) <= 1e-12 * Vs and abs(drop.surface_area - 2 * PI * R) <= 1e-9 * R and abs(drop.surface_area_approx - 2 * PI * R) <= 1e-12 * R, {"volume": drop.volume, "surface": drop.surface_area}, tags)
+            ctx.check("C13.sphere-limit", abs(drop.volume - Vs) <= 1e-12 * Vs and abs(drop.surface_area - 2 * PI * R) <= 1e-9 * R and abs(drop.surface_area_approx - 2 * PI * R) <= 1e-12 * R, {"volume": drop.volume, "surface": drop.surface_area}, tags)
             Hc = drop.interface_curvature(ang[0])
         else:
             ctx.check("C13.sphere-limit", abs(drop.volume_approx - Vs) <= 1e-12 * Vs, {"volume_approx": drop.volume_approx}, tags)
@@ -370,6 +370,16 @@ def run_case(case, ctx):
                 ctx.check("C13.sphere-limit", abs(drop.volume - Vs) <= 1e-9 * Vs, {"volume": drop.volume}, tags)
             Hc = drop.interface_curvature(*ang) if cls == "3d" else drop.interface_curvature(ang[0])
         ctx.check("C13.sphere-limit", bool(np.allclose(Hc, 1 / R, rtol=1e-12, atol=0)), {"curvature": np.atleast_1d(Hc)[:3]}, tags)
+        # the plain spherical droplet of the same centre and radius: outline and triangulation lie on the sphere
+        from droplets import SphericalDroplet
+
+        sd = SphericalDroplet(np.array(c, float), R)
+        sp = sd.interface_position(*(ang if cls != "axisym" else ang))
+        ctx.op()
+        ctx.check("C13.sphere-limit", sp.shape == want.shape and bool(np.allclose(sp, want, rtol=0, atol=1e-12 * R)), {"what": "SphericalDroplet.interface_position"}, tags)
+        tri = sd.get_triangulation(0.4 * R)
+        vert = np.asarray(tri["vertices"], float)
+        ctx.check("C13.sphere-limit", bool(np.allclose(np.linalg.norm(vert - np.array(c)[None, :], axis=1), R, rtol=1e-9, atol=0)) and len(vert) >= 4, {"what": "SphericalDroplet.get_triangulation"}, tags)
 
 
 def expected_positive(tier):
